@@ -352,7 +352,43 @@ class CFG:
             n = self.nodes[nid]
             if n.kind == 'branch' and n.of.exprs:
                 out.append((self.expanded(n.of.exprs[0]), n.label, n.of))
+        # guards inside the same full expression: right operands of && / || and the arms of ?:
+        if ev.conditional:
+            for root in ev.node.exprs:
+                acc = self._sc_path(root, ev.e, [])
+                if acc:
+                    dummy = Node(-1, 'cond')
+                    for c, lab in acc:
+                        out.append((self.expanded(c), lab, dummy))
+                    break
         return out
+
+    def _sc_path(self, e, target, acc):
+        if e is None:
+            return None
+        if e is target:
+            return list(acc)
+        k = e.get('k')
+        if k == 'lambda':
+            return None
+        if k == 'bin' and e.get('op') in ('&&', '||'):
+            r = self._sc_path(e['l'], target, acc)
+            if r is not None:
+                return r
+            return self._sc_path(e['r'], target, acc + [(e['l'], e['op'] == '&&')])
+        if k == 'cond':
+            r = self._sc_path(e['c'], target, acc)
+            if r is not None:
+                return r
+            r = self._sc_path(e['t'], target, acc + [(e['c'], True)])
+            if r is not None:
+                return r
+            return self._sc_path(e['e'], target, acc + [(e['c'], False)])
+        for c in expr_children(e):
+            r = self._sc_path(c, target, acc)
+            if r is not None:
+                return r
+        return None
 
     def calls(self, pred=None):
         out = []
